@@ -11,6 +11,8 @@
                    c = backend connection of the source proxy (client command), p = backend connection of the destination proxy
                    (pull path / commands), x = migration client of the source proxy (scanner, push path)
               fin <s|d> <nil|val:<hex>>   final content of the node
+              kill <idx>                  the multi-key command of internal operation idx has been answered
+              cmt0                        the delivery of the committed metadata to the key's destination proxy starts (EvCommit not before)
        -> "accept ok steps=<model steps> hidden=<n>" | "accept outside-premise <c11|commit|classified> ..." |
           "accept reject at=<index of the first observed event no premise-respecting run can reach> ev=<text>" |
           "accept budget at=<n>"
@@ -34,6 +36,7 @@ type oev =
   | ORedis of bool * string * string * pre * int * string * string     (* on_src, who, cmd, pre, idx, kind, hexval *)
   | OFin of bool * pre
   | OKill of int
+  | OCommitLB                     (* the coordinator starts delivering the committed metadata to the destination proxy: no commit before *)
 
 let ensured : int list ref = ref []
 (* operations that stand for one `EXISTS key` of ensure_keys_imported (push 3): several are provided per multi-key command because a
@@ -43,6 +46,7 @@ let internal : int list ref = ref []
 let exists_ops : int list ref = ref []
 (* position of the `kill <idx>` event of an internal operation: its multi-key command has been answered, it cannot start any more *)
 let kill_pos : (int, int) Hashtbl.t = Hashtbl.create 64
+let commit_lb : int ref = ref 0
 
 let parse_kind k v : Migrate.kind =
   match k with
@@ -67,6 +71,7 @@ let parse_ev (toks : string list) : oev =
   | [sd; who; cmd; pre; i; k; v] when sd = "s" || sd = "d" -> ORedis (sd = "s", who, cmd, parse_pre pre, int_of_string i, k, v)
   | ["fin"; sd; pre] -> OFin (sd = "s", parse_pre pre)
   | ["kill"; i] -> OKill (int_of_string i)
+  | ["cmt0"] -> OCommitLB
   | _ -> failwith ("bad event " ^ Stdlib.String.concat " " toks)
 
 let rec split_bar (toks : string list) (cur : string list) (acc : string list list) =
@@ -85,7 +90,7 @@ let candidates (s : Migrate.state) (o : oev) : Migrate.event list =
   match o with
   | OInv (_, k, p, a) -> [Migrate.EvInvoke ({ Migrate.ckind = k; Migrate.cpush = p }, a)]
   | ORep (i, _) -> [Migrate.EvReply (nat i)]
-  | OFin _ | OKill _ -> []
+  | OFin _ | OKill _ | OCommitLB -> []
   | ORedis (true, "c", "cmd", _, i, _, _) -> if i >= 0 then [Migrate.EvExecSrc (nat i)] else each (fun i -> Migrate.EvExecSrc i)
   | ORedis (true, "p", "dump", _, _, _, _) -> each (fun i -> Migrate.EvDumpExec i)
   | ORedis (true, "p", "pttl", _, _, _, _) -> each (fun i -> Migrate.EvPttlExec i)
@@ -141,66 +146,90 @@ let obs_matches (s : Migrate.state) (e : Migrate.event) (o : oev) : bool =
    only from a program counter from which hidden moves can reach that event; lock releases are applied eagerly (see `normalize`).
    Hidden op-local moves commute with everything else except through the locks and the phases, whose own hidden changes are
    always offered, so for runs respecting the premises nothing is lost. *)
-let focus_ok (next : oev) (i0 : int) (o : Migrate.opst) : bool =
-  let pc = o.Migrate.opc in
-  let routing = (match pc with Migrate.PAtDst | Migrate.PAtSrc | Migrate.PSrcQueued -> true | _ -> false) in
+type goal = GCheck | GDump | GXfer | GDstCmd | GSrcCmd | GErr | GNone
+
+let goal_of (next : oev) (i0 : int) (o : Migrate.opst) : goal =
   let kind_ok k =
     (match o.Migrate.ocmd.Migrate.ckind, k with
      | Migrate.KRead, "r" | Migrate.KDelete, "d" | Migrate.KWrite _, "w" -> true
      | _, "" -> true
      | _ -> false) in
   match next with
-  | ORedis (false, "p", ("exists" | "existsq"), _, _, _, _) ->
-    routing || (match pc with Migrate.PExistsNo -> true | _ -> false)
-  | ORedis (true, "c", "existsq", _, _, _, _) -> routing && Stdlib.List.mem i0 !exists_ops
-  | ORedis (true, "p", "dump", _, _, _, _) -> (match pc with Migrate.PExistsNo -> true | _ -> false)
-  | ORedis (true, "x", "pttl", _, _, _, _) ->
-    routing || (match pc with Migrate.PPushPending _ | Migrate.PUmsyncSent -> true | _ -> false)
-  | ORedis (false, "p", "cmd", _, idx, k, _) ->
-    (idx < 0 || idx = i0) && kind_ok k
-    && (routing || (match pc with Migrate.PPushPending _ | Migrate.PUmsyncSent | Migrate.PSyncQueued | Migrate.PUmsyncReplied -> true | _ -> false))
-  | ORedis (true, "c", "cmd", _, idx, k, _) -> (idx < 0 || idx = i0) && kind_ok k && routing
-  | _ -> false
+  | ORedis (false, "p", ("exists" | "existsq"), _, _, _, _) -> GCheck
+  | ORedis (true, "c", "existsq", _, _, _, _) -> if Stdlib.List.mem i0 !exists_ops then GSrcCmd else GNone
+  | ORedis (true, "p", "dump", _, _, _, _) -> GDump
+  | ORedis (true, "x", "pttl", _, _, _, _) -> GXfer
+  | ORedis (false, "p", "cmd", _, idx, k, _) -> if (idx < 0 || idx = i0) && kind_ok k then GDstCmd else GNone
+  | ORedis (true, "c", "cmd", _, idx, k, _) -> if (idx < 0 || idx = i0) && kind_ok k then GSrcCmd else GNone
+  | ORep (i, RErrC) -> if i = i0 then GErr else GNone
+  | _ -> GNone
 
+(* the hidden moves of operation i0 that lie on a path from its program counter to the observed event `next` *)
+let goal_moves (g : goal) (i0 : int) (o : Migrate.opst) : Migrate.event list =
+  let i = nat i0 in
+  let ens = Stdlib.List.mem i0 !ensured in
+  match g, o.Migrate.opc with
+  | GNone, _ -> []
+  | GSrcCmd, Migrate.PAtSrc -> [Migrate.EvSrcHandoff i]
+  | GSrcCmd, Migrate.PAtDst -> [Migrate.EvDstRedirect i]
+  | _, Migrate.PSrcQueued -> [Migrate.EvSrcRelease i]
+  | GSrcCmd, _ -> []
+  | _, Migrate.PAtSrc -> [Migrate.EvSrcRedirect i]
+  | GCheck, Migrate.PAtDst -> if ens then [] else [Migrate.EvSendExists i]
+  | GCheck, Migrate.PExistsNo -> [Migrate.EvPullLock (i, false)]
+  | GDump, Migrate.PExistsNo -> [Migrate.EvPullLock (i, true)]
+  | (GXfer | GErr), Migrate.PAtDst -> if ens then [] else [Migrate.EvPushLock (i, true); Migrate.EvPushLock (i, false)]
+  | (GXfer | GErr), Migrate.PPushPending _ -> [Migrate.EvPushRetry (i, true); Migrate.EvPushRetry (i, false)]
+  | GXfer, Migrate.PUmsyncSent -> [Migrate.EvSyncLock (i, true); Migrate.EvSyncLock (i, false)]
+  | GDstCmd, Migrate.PAtDst ->
+    if ens then [Migrate.EvDirect i; Migrate.EvEnsured i]
+    else [Migrate.EvDirect i; Migrate.EvPushLock (i, true); Migrate.EvPushLock (i, false)]
+  | GDstCmd, Migrate.PPushPending _ -> [Migrate.EvPushRetry (i, true); Migrate.EvPushRetry (i, false)]
+  | GDstCmd, Migrate.PUmsyncSent -> [Migrate.EvSyncNotFound i; Migrate.EvSyncLock (i, false)]
+  | GDstCmd, Migrate.PSyncQueued -> [Migrate.EvSyncFinished i]
+  | _ -> []
+
+(* Hidden (unobservable) moves are scheduled LAZILY and GOAL-DIRECTED: an operation only moves right before the observed event it has
+   to explain and only along hidden moves that lead to it; lock releases are applied eagerly (`normalize`); the hidden phase / commit
+   changes are always offered, and right before one of them the routing moves it would disable are offered too (the code may have
+   routed the command before the change).  Hidden op-local moves commute with everything except through locks and phases, so for
+   runs respecting the premises nothing is lost. *)
 let hidden_events (s : Migrate.state) (next : oev) (pos : int) : Migrate.event list =
   let ops = Array.of_list s.Migrate.ops in
   let after_globals = lazy (Stdlib.List.filter_map (fun g -> Migrate.step s g)
-      [Migrate.EvPreCheckAck; Migrate.EvBlockingDone; Migrate.EvDstPreSwitch; Migrate.EvSrcScanning; Migrate.EvScanFinished;
-       Migrate.EvDstFinal; Migrate.EvSrcFinal; Migrate.EvCommit]) in
+      [Migrate.EvDstPreSwitch; Migrate.EvSrcScanning; Migrate.EvCommit]) in
   let next_existsq = (match next with ORedis (_, _, "existsq", _, _, _, _) -> true | _ -> false) in
   let per i0 (o : Migrate.opst) =
     let i = nat i0 in
     let is_int j = Stdlib.List.mem j !internal in
     let killed = (match Hashtbl.find_opt kill_pos i0 with Some p -> p <= pos | None -> false) in
     (* symmetry: of the interchangeable internal operations of one command only the first that is still waiting may start *)
-    let shadowed = i0 > 0 && is_int (i0 - 1) && (match ops.(i0 - 1).Migrate.opc with Migrate.PAtDst -> true | _ -> false)
+    let shadowed = i0 > 0 && is_int (i0 - 1) && (match ops.(i0 - 1).Migrate.opc with Migrate.PAtDst | Migrate.PAtSrc -> true | _ -> false)
                    && not (match Hashtbl.find_opt kill_pos (i0 - 1) with Some p -> p <= pos | None -> false) in
-    let dormant = is_int i0 && (not next_existsq || killed || shadowed) in
-    let focused = focus_ok next i0 o in
-    (* an unfocused move is still offered when a hidden phase / commit change that is enabled now would disable it: the code may
-       have performed it before that change *)
-    let urgent (e : Migrate.event) =
-      (match Migrate.step s e with
-       | None -> false
-       | Some _ -> Stdlib.List.exists (fun g -> match Migrate.step g e with None -> true | Some _ -> false) (Lazy.force after_globals)) in
-    let routing = (match o.Migrate.opc with Migrate.PAtDst | Migrate.PAtSrc | Migrate.PSrcQueued -> true | _ -> false) in
-    let filt l =
-      if focused then l else if is_int i0 then []
-      else if routing && Lazy.force after_globals <> [] then l      (* a phase / commit change is pending: routing may have happened before it *)
-      else Stdlib.List.filter urgent l in
-    filt (match o.Migrate.opc with
-    | Migrate.PAtSrc | Migrate.PAtDst when dormant -> []
-    | Migrate.PAtSrc -> [Migrate.EvSrcHandoff i; Migrate.EvSrcQueue i; Migrate.EvSrcRedirect i]
-    | Migrate.PSrcQueued -> [Migrate.EvSrcRelease i]
-    | Migrate.PAtDst ->
-      if Stdlib.List.mem (int_of_nat i) !ensured then [Migrate.EvDstRedirect i; Migrate.EvDirect i; Migrate.EvEnsured i]
-      else [Migrate.EvDstRedirect i; Migrate.EvDirect i; Migrate.EvSendExists i;
-            Migrate.EvPushLock (i, true); Migrate.EvPushLock (i, false)]
-    | Migrate.PExistsNo -> [Migrate.EvPullLock (i, true); Migrate.EvPullLock (i, false)]
-    | Migrate.PPushPending _ -> [Migrate.EvPushRetry (i, true); Migrate.EvPushRetry (i, false)]
-    | Migrate.PUmsyncSent -> [Migrate.EvSyncLock (i, true); Migrate.EvSyncLock (i, false); Migrate.EvSyncNotFound i]
-    | Migrate.PSyncQueued -> [Migrate.EvSyncFinished i]
-    | _ -> []) in
+    let waiting = (match o.Migrate.opc with Migrate.PAtDst | Migrate.PAtSrc -> true | _ -> false) in
+    if is_int i0 && waiting && (not next_existsq || killed || shadowed) then []
+    else begin
+      let goal = goal_moves (goal_of next i0 o) i0 o in
+      if goal <> [] || is_int i0 then goal
+      else begin
+        (* routing moves that a pending phase / commit change would disable *)
+        let pending = Lazy.force after_globals in
+        if pending = [] then [] else begin
+          let cands = (match o.Migrate.opc with
+              | Migrate.PAtSrc -> [Migrate.EvSrcHandoff i; Migrate.EvSrcRedirect i]
+              | Migrate.PSrcQueued -> [Migrate.EvSrcRelease i]
+              | Migrate.PAtDst ->
+                if Stdlib.List.mem i0 !ensured then [Migrate.EvDstRedirect i; Migrate.EvEnsured i]
+                else [Migrate.EvDstRedirect i; Migrate.EvSendExists i; Migrate.EvPushLock (i, true); Migrate.EvPushLock (i, false)]
+              | _ -> []) in
+          let disabled_later e = Stdlib.List.exists (fun g -> match Migrate.step g e with None -> true | Some _ -> false) pending in
+          Stdlib.List.filter (fun e ->
+              match Migrate.step s e with
+              | None -> false
+              | Some _ -> disabled_later e || (match e with Migrate.EvSrcRedirect _ | Migrate.EvSrcRelease _ -> true | _ -> false)) cands
+        end
+      end
+    end in
   Stdlib.List.concat (Stdlib.List.mapi per s.Migrate.ops)
   @ [Migrate.EvScanSkip; Migrate.EvScanLock; Migrate.EvPreCheckAck; Migrate.EvBlockingDone; Migrate.EvDstPreSwitch;
      Migrate.EvSrcScanning; Migrate.EvScanFinished; Migrate.EvDstFinal; Migrate.EvSrcFinal; Migrate.EvCommit]
@@ -220,6 +249,7 @@ let rec normalize (s : Migrate.state) (n : int) : Migrate.state * int =
   | None -> (s, n)
 
 exception Budget
+let debug = (try Sys.getenv "UM_ACCEPT_DEBUG" <> "" with Not_found -> false)
 
 (* enforce: 0 = all premises, 1 = without c11, 2 = without commit, 4 = without ensured, 3 = none *)
 let search (s0 : Migrate.state) (evs : oev array) (enforce : int) : (int * int) option * int =
@@ -233,7 +263,7 @@ let search (s0 : Migrate.state) (evs : oev array) (enforce : int) : (int * int) 
   let rec go (s : Migrate.state) (pos : int) (steps : int) (hid : int) : (int * int) option =
     let (s, nn) = normalize s 0 in
     let steps = steps + nn and hid = hid + nn in
-    if pos > !best then best := pos;
+    if pos > !best then begin best := pos; if debug then Stdlib.Printf.eprintf "best=%d nodes=%d committed=%b\n%!" pos !nodes s.Migrate.gl.Migrate.committed end;
     if pos = n then Some (steps, hid) else begin
         let live_idx = Stdlib.List.filter (fun (_, (o : Migrate.opst)) ->
             match o.Migrate.opc, o.Migrate.ocl with
@@ -248,7 +278,7 @@ let search (s0 : Migrate.state) (evs : oev array) (enforce : int) : (int * int) 
         let o = evs.(pos) in
         let direct =
           match o with
-          | OKill _ -> go s (pos + 1) steps hid
+          | OKill _ | OCommitLB -> go s (pos + 1) steps hid
           | OFin (on_src, pre) ->
             let g = s.Migrate.gl in
             let v = Migrate.coq_val (if on_src then g.Migrate.src else g.Migrate.dst) in
@@ -269,7 +299,7 @@ let search (s0 : Migrate.state) (evs : oev array) (enforce : int) : (int * int) 
           let rec try_h = function
             | [] -> None
             | e :: r ->
-              if premise s e then
+              if premise s e && not (e = Migrate.EvCommit && pos < !commit_lb) then
                 (match Migrate.step s e with
                  | Some s' when s' <> s -> (match go s' pos (steps + 1) (hid + 1) with Some x -> Some x | None -> try_h r)
                  | _ -> try_h r)
@@ -290,7 +320,8 @@ let run_case (line : string) : string =
     let groups = split_bar rest [] [] in
     ensured := []; internal := []; exists_ops := []; Hashtbl.reset kill_pos;
     let evs = Array.of_list (Stdlib.List.map parse_ev groups) in
-    Array.iteri (fun p e -> match e with OKill i -> Hashtbl.replace kill_pos i p | _ -> ()) evs;
+    commit_lb := 0;
+    Array.iteri (fun p e -> match e with OKill i -> Hashtbl.replace kill_pos i p | OCommitLB -> commit_lb := p | _ -> ()) evs;
     let s0 = Migrate.init (match parse_pre src0 with None -> None | Some v -> Some (v, Ttl.coq_PTTL_NO_EXPIRE)) in
     (try
        match search s0 evs 0 with
